@@ -126,6 +126,47 @@ def h_nomap(ctx):
     return r.scheme + ":" + name
 
 
+_BOUNDARY = []
+
+
+def _boundary_frames():
+    """Concrete event frames that carry their instance type, one per (type 0..7, event information 0 / 1023 /
+    a middle value), found by searching the reference decoder."""
+    if not _BOUNDARY:
+        want = {(t, d) for t in range(8) for d in (0, 1023, 0x155)}
+        for top in range(0, 1 << 14):
+            if not want:
+                break
+            if top & 0x40:          # bit 16 of the frame: a command, not an event
+                continue
+            for d in (0, 1023, 0x155):
+                x = (top << 10) | d
+                r = ref.decode_source(x)
+                if r is not None and r.scheme != "device_instance" and (r.inst_type, d) in want:
+                    want.discard((r.inst_type, d))
+                    _BOUNDARY.append(x)
+    return _BOUNDARY
+
+
+def h_nomap_pair(ctx):
+    """Two event frames decoded one after the other in one process (all pairs of a boundary set: every instance
+    type with the smallest, the largest and a middle event information): the second decoding is what it would
+    have been on its own - nothing remembered from one frame may be taken for another."""
+    fr = _boundary_frames()
+    a = fr[ctx.fresh_choice("first", len(fr))]
+    b = fr[ctx.fresh_choice("second", len(fr))]
+    label = ""
+    for which, x in (("first", a), ("second", b)):
+        st, ev = call(C.from_frame, F.ForwardFrame(24, x))
+        if st == "exc" or not isinstance(ev, dg._Event):
+            ctx.fail("decode of %06x gave %r" % (x, ev), key="pair/%s-not-event" % which)
+            return "exc"
+        r = ref.decode_source(x)
+        label = _check_event(ctx, ev, r, r.inst_type, "pair/" + which)
+        ctx.prove(ev.frame.as_integer == x, "bits of the %s frame changed" % which, key="pair/%s-bits" % which)
+    return label
+
+
 def _mkmap(ctx, extra=0):
     m = helpers.DeviceInstanceTypeMapper()
     m._mapping = newdict(ctx)
@@ -330,7 +371,7 @@ def h_map_history(ctx, steps, concrete=False):
 
 
 def cases(tier):
-    cs = [Case("nomap", h_nomap, {}), Case("map", h_map, {}),
+    cs = [Case("nomap", h_nomap, {}), Case("map", h_map, {}), Case("nomap-pair", h_nomap_pair, {}),
           Case("map-history-add", h_map_history, {"steps": ("add",)}),
           Case("map-history-add-clear-add", h_map_history, {"steps": ("add", "clear", "add")}),
           Case("map-history-concrete", h_map_history, {"steps": ("add", "clear", "add"), "concrete": True})]
